@@ -296,6 +296,32 @@ func genSrvSession(repo string) (string, error) {
 		fmt.Fprintf(&sb, "/-- %s: an unknown item id is answered and skipped before the item is dereferenced -/\ndef %sUnknownContinues : Bool := %v\n", m.method, m.lean, u)
 		fmt.Fprintf(&sb, "/-- %s: an item of another session is answered BadSessionIDInvalid and skipped -/\ndef %sMismatchContinues : Bool := %v\n\n", m.method, m.lean, mm)
 	}
-	sb.WriteString("end Opcua.Gen.SrvSession\n")
+	// the two session-signature helpers of package uasc the session services call: is the
+	// `.(*rsa.PublicKey)` assertion on the peer certificate's key checked (`key, ok := …`)?
+	for _, m := range []struct{ fn, lean string }{{"NewSessionSignature", "newSessionSignatureChecked"}, {"VerifySessionSignature", "verifySessionSignatureChecked"}} {
+		fd, err := srvrobFindFunc(fset, filepath.Join(repo, "uasc"), m.fn)
+		if err != nil {
+			return "", err
+		}
+		found, checked := false, true
+		ast.Inspect(fd.Body, func(n ast.Node) bool {
+			as, ok := n.(*ast.AssignStmt)
+			if !ok || len(as.Rhs) != 1 {
+				return true
+			}
+			if ta, ok := as.Rhs[0].(*ast.TypeAssertExpr); ok && strings.Contains(types.ExprString(ta.Type), "rsa.PublicKey") {
+				found = true
+				if len(as.Lhs) < 2 {
+					checked = false
+				}
+			}
+			return true
+		})
+		if !found {
+			checked = true // no assertion at all
+		}
+		fmt.Fprintf(&sb, "/-- uasc.%s: the RSA type assertion on the certificate's key is checked (or absent) -/\ndef %s : Bool := %v\n", m.fn, m.lean, checked)
+	}
+	sb.WriteString("\nend Opcua.Gen.SrvSession\n")
 	return strings.ReplaceAll(sb.String(), ",\n]", "\n]"), nil
 }
